@@ -3,29 +3,34 @@
 into seeded/mechanical/{results.jsonl,SUMMARY.md}."""
 import collections, glob, json, os
 res = []
-for f in glob.glob("/verif/.build/mutants/m*/result.json"):
-    res.append(json.load(open(f)))
-res.sort(key=lambda r: r["k"])
+for b, d in (("1", "mutants"), ("2", "mutants2"), ("3", "mutants3")):
+    for f in glob.glob(f"/verif/.build/{d}/m*/result.json"):
+        r = json.load(open(f))
+        if r["verdict"].startswith("duplicate"):
+            continue
+        r["key"] = f"{b}:{r['k']}"
+        res.append(r)
+res.sort(key=lambda r: (r["key"].split(":")[0], r["k"]))
 tri = json.load(open("/verif/seeded/mechanical/triage.json"))
 with open("/verif/seeded/mechanical/results.jsonl", "w") as f:
     for r in res:
         f.write(json.dumps(r) + "\n")
 c = collections.Counter(r["verdict"] for r in res)
 surv = [r for r in res if r["verdict"] == "SURVIVOR"]
-cls = collections.Counter(tri.get(str(r["k"]), {}).get("class", "untriaged") for r in surv)
+cls = collections.Counter(tri.get(r["key"], {}).get("class", "untriaged") for r in surv)
 relevant = c["killed"] + len(surv)
 L = ["# Mechanical mutation experiment", "",
-     f"{len(res)} single-token mutants (relational / boolean / constant / deleted-statement operators, `tools/mutate.py gen --per-file 8 --seed 7`) of the 29 source files the properties are anchored in; each evaluated by all 20 checks of the committed /verif on a scratch worktree, survivors then by the existing test suite.", "",
+     f"{len(res)} single-token mutants (relational / boolean / constant / deleted-statement operators, three batches of `tools/mutate.py gen`; the third adds negate-if and integer+1; duplicates across batches dropped) of the 29 source files the properties are anchored in; each evaluated by all 20 checks of the committed /verif on a scratch worktree, survivors then by the existing test suite.", "",
      "| verdict | mutants |", "|---|---|",
      f"| does not compile | {c['nocompile']} |",
      f"| killed by at least one check | {c['killed']} |",
      f"| survived the checks, killed by the existing tests (outside the task's scope) | {c['tests-kill']} |",
      f"| survived both | {len(surv)} |", "",
      "Survivors after triage: " + ", ".join(f"{v} {k}" for k, v in sorted(cls.items())) + ".", "",
-     "| mutant | file:line | operator | class | note |", "|---|---|---|---|---|"]
+     "| batch:mutant | file:line | operator | class | note |", "|---|---|---|---|---|"]
 for r in surv:
-    t = tri.get(str(r["k"]), {})
-    L.append(f"| m{r['k']} | {r['file']}:{r['line']} | {r['op']} | {t.get('class','untriaged')} | {t.get('note','')} |")
+    t = tri.get(r["key"], {})
+    L.append(f"| {r['key']} | {r['file']}:{r['line']} | {r['op']} | {t.get('class','untriaged')} | {t.get('note','')} |")
 L += ["", "Checks that killed the most mutants: " + ", ".join(f"{k} {v}" for k, v in collections.Counter(a for r in res if r["verdict"] == "killed" for a in r.get("alarms", [])).most_common(20)) + "."]
 open("/verif/seeded/mechanical/SUMMARY.md", "w").write("\n".join(L) + "\n")
 print("\n".join(L[:14]))
